@@ -299,9 +299,8 @@ class URL:
             b"socks5": 1080,
             b"socks5h": 1080,
         }[self.scheme]
-        return Origin(
-            scheme=self.scheme, host=self.host, port=self.port or default_port
-        )
+        port = default_port if self.port is None else self.port
+        return Origin(scheme=self.scheme, host=self.host, port=port)
 
     def __eq__(self, other: typing.Any) -> bool:
         return (
